@@ -7,6 +7,9 @@ from .modes import judge_c07
 
 ID = "C07"
 LEVEL = "exploration"
+MIX = True  # a share of the decodes goes through the other front ends and byte sources (context.py)
+HISTORY = True  # every second shard first runs a prelude of earlier library use (history.py)
+OLANE = True  # two more shards run in an interpreter started with -O (runner.start_olane)
 RULE = (
     "both modes run on the same bytes for: hypothesis-generated well-formed messages, single size-field and value faults, cuts and "
     "suffixes, 1-3 mixed injected faults, arbitrary/mutated/wrong-type inputs, and the exhaustive small-alphabet strings of the "
